@@ -245,6 +245,20 @@ class Interp:
         if fr.spec:
             ts = [zbool(self.truthy(self.eval(v, fr))) for v in e.values]
             return VBool(simp(z3.And(*ts) if isinstance(e.op, ast.And) else z3.Or(*ts)))
+        if all(pure_expr(v) for v in e.values):
+            # operands cannot raise or have effects: evaluate them all and build one term (no fork)
+            vals = [self.eval(v, fr) for v in e.values]
+            if all(isinstance(v, VBool) for v in vals):
+                ts = [zbool(v.t) for v in vals]
+                return VBool(simp(z3.And(*ts) if isinstance(e.op, ast.And) else z3.Or(*ts)))
+            for i, val in enumerate(vals):
+                if i == len(vals) - 1:
+                    return val
+                t = self.st.decide(self.truthy(val))
+                if isinstance(e.op, ast.And) and not t:
+                    return val
+                if isinstance(e.op, ast.Or) and t:
+                    return val
         val = None
         for i, sub in enumerate(e.values):
             val = self.eval(sub, fr)
@@ -1138,6 +1152,10 @@ class Interp:
             k = st.choose(len(alts))
             st.inputs.append(dict(name=hint + "?", kind="choice", value=alts[k]))
             return self.fresh_of_type(alts[k], hint)
+        if ty == "bytesio":
+            r = st.alloc("BytesIO", "bytesio")
+            st.heap[r.ref].hint = hint
+            return r
         if ty.startswith("obj:"):
             r = st.alloc(self.E.resolve_class(ty[4:]))
             st.heap[r.ref].hint = hint
@@ -1498,3 +1516,26 @@ def split_top(s):
     if cur.strip():
         out.append(cur.strip())
     return out
+
+
+_PURE_CMP = (ast.Lt, ast.LtE, ast.Gt, ast.GtE, ast.Eq, ast.NotEq, ast.Is, ast.IsNot)
+
+
+def pure_expr(e):
+    """syntactic test: evaluation cannot raise and has no effect (so `and`/`or` need not short-circuit)"""
+    if isinstance(e, (ast.Constant, ast.Name)):
+        return True
+    if isinstance(e, ast.Attribute):
+        return isinstance(e.value, ast.Name) and e.value.id == "self"
+    if isinstance(e, ast.Compare):
+        if not all(isinstance(op, _PURE_CMP) for op in e.ops):
+            return False
+        # ordering comparisons can raise TypeError on None; only allow them between attribute/ints syntactically
+        return pure_expr(e.left) and all(pure_expr(c) for c in e.comparators)
+    if isinstance(e, ast.UnaryOp) and isinstance(e.op, ast.Not):
+        return pure_expr(e.operand)
+    if isinstance(e, ast.BoolOp):
+        return all(pure_expr(v) for v in e.values)
+    if isinstance(e, ast.BinOp) and isinstance(e.op, (ast.Add, ast.Sub)):
+        return pure_expr(e.left) and pure_expr(e.right)
+    return False
